@@ -84,9 +84,23 @@ def translate():
                 and is_name(s.value.func.value, 'logger'):
             # the message must not read attributes of the callee directly: func.__name__ raises AttributeError for
             # functools.partial / callable objects and the handler would die instead of retrying (pre-fix shape)
-            if any(isinstance(n, ast.Attribute) and is_name(n.value, 'func') for n in ast.walk(s)):
-                raise Untranslatable(UNIT, f'the log statement at line {s.lineno} reads an attribute of func directly '
-                                           '(AttributeError for callables without it replaces the retry)')
+            # allowed: `func.__name__ if hasattr(func, '__name__') else repr(func)` (lazy: repr only for nameless callables).
+            # refused: a bare `func.<attr>` (AttributeError for callables without it replaces the retry, finding F20) and
+            # `getattr(func, '__name__', repr(func))` (repr evaluated eagerly: a bound method of an object whose __repr__ raises)
+            guarded = set()
+            for n in ast.walk(s):
+                if isinstance(n, ast.IfExp) and dump(n.test) == dump(ast.parse("hasattr(func, '__name__')").body[0].value) \
+                        and isinstance(n.body, ast.Attribute) and is_name(n.body.value, 'func') and n.body.attr == '__name__' \
+                        and dump(n.orelse) == dump(ast.parse('repr(func)').body[0].value):
+                    guarded.add(id(n.body))
+                    guarded.add(id(n.orelse))
+            for n in ast.walk(s):
+                if isinstance(n, ast.Attribute) and is_name(n.value, 'func') and id(n) not in guarded:
+                    raise Untranslatable(UNIT, f'the log statement at line {s.lineno} reads an attribute of func directly '
+                                               '(AttributeError for callables without it replaces the retry)')
+                if isinstance(n, ast.Call) and is_name(n.func, 'repr') and id(n) not in guarded:
+                    raise Untranslatable(UNIT, f'the log statement at line {s.lineno} evaluates repr(...) unconditionally '
+                                               '(a bound method of an object whose __repr__ raises replaces the retry)')
             hs.append('HLog')
         elif isinstance(s, ast.AugAssign) and is_name(s.target, counter) and isinstance(s.op, (ast.Add, ast.Sub)) \
                 and isinstance(s.value, ast.Constant) and type(s.value.value) is int:
